@@ -73,7 +73,7 @@ pub fn recv(&mut self, stop_timer: &mut Option<Timer>, env: &mut Env) -> (r: Opt
         (*old(stop_timer)) is Some && (*old(stop_timer))->Some_0.until.t <= old(env).now@ ==> (*final(stop_timer)) is None
             && is_prefix_grown(old(env).urgent@, final(env).urgent@) && is_prefix_grown(old(env).high@, final(env).high@) && is_prefix_grown(old(env).normal@, final(env).normal@), // OBL:C06.recv.expired_timer_first
         // while the timer stays armed it is unchanged, and the normal queue is never consumed
-        (*old(stop_timer)) is Some ==> is_prefix_grown(old(env).normal@, final(env).normal@), // OBL:C06.recv.normal_held_back_while_armed
+        (*old(stop_timer)) is Some ==> is_prefix_grown(old(env).normal@, final(env).normal@), // OBL:C06+C08.recv.normal_held_back_while_armed
         (*old(stop_timer)) is Some && (*final(stop_timer)) is Some ==> (*final(stop_timer))->Some_0.until == (*old(stop_timer))->Some_0.until
             && (*final(stop_timer))->Some_0.done.id == (*old(stop_timer))->Some_0.done.id && (*final(stop_timer))->Some_0.is_restart == (*old(stop_timer))->Some_0.is_restart, // OBL:C06.recv.armed_timer_unchanged
         (*old(stop_timer)) is None ==> (*final(stop_timer)) is None, // OBL:C06.recv.never_arms
@@ -168,11 +168,11 @@ broadcast use axiom_terminate_to_nix;
 //@ enddef
 //@ defblock CH_ENS
         // ---- C04 ----
-        inv_live(&*final(command_state), final(env)), // OBL:C04.control_handler.at_most_one_live_child
+        inv_live(&*final(command_state), final(env)), // OBL:C04+C05.control_handler.at_most_one_live_child
         // ---- C07: tickets ----
         r is Normally ==> final(env).raised@.contains(done.id), // OBL:C07.control_handler.completed_control_resolves_its_ticket
         r is Skip ==> parked(done.id, *final(stop_timer), final(on_end)@, *final(on_end_restart)), // OBL:C07.control_handler.deferred_ticket_is_parked
-        r is Break ==> final(env).raised@.contains(done.id) && control is Delete, // OBL:C07+C09.control_handler.only_delete_ends_the_job
+        r is Break ==> final(env).raised@.contains(done.id) && control is Delete, // OBL:C07+C08+C09.control_handler.only_delete_ends_the_job
         forall|f: int| (parked(f, *old(stop_timer), old(on_end)@, *old(on_end_restart)) || f == done.id) ==>
             final(env).raised@.contains(f) || parked(f, *final(stop_timer), final(on_end)@, *final(on_end_restart)), // OBL:C07.control_handler.no_ticket_is_dropped
         inv_restart(*final(stop_timer), *final(on_end_restart), final(env)), // OBL:C07.control_handler.restart_ticket_stays_covered
@@ -189,7 +189,7 @@ broadcast use axiom_terminate_to_nix;
         control is GracefulStop ==> c09_graceful($OV, $FV, $ENVS, control->GracefulStop_signal, control->GracefulStop_grace, done.id, false, r is Skip), // OBL:C06+C09.control.graceful_stop
         control is TryGracefulRestart ==> c09_graceful($OV, $FV, $ENVS, control->TryGracefulRestart_signal, control->TryGracefulRestart_grace, done.id, true, r is Skip), // OBL:C06+C09.control.try_graceful_restart
         control is Signal ==> c09_signal($OV, $FV, $ENVS, control->Signal_0) && r is Normally, // OBL:C09.control.signal
-        control is Delete ==> n_of($ENVS) == 0 && unchanged($OV, $FV) && r is Break, // OBL:C09.control.delete
+        control is Delete ==> n_of($ENVS) == 0 && unchanged($OV, $FV) && r is Break, // OBL:C08+C09.control.delete
         control is NextEnding ==> c09_next_ending($OV, $FV, $ENVS, done.id) && (r is Skip <==> cs_view(&*old(command_state)) is Running), // OBL:C09.control.next_ending
         control is SyncFunc || control is AsyncFunc ==> c09_func($OV, $FV, $ENVS) && r is Normally, // OBL:C09.control.func
         control is SetSyncSpawnHook ==> c09_set_hooks($OV, $FV, $ENVS, $OV.eh, SpawnHook::Sync(control->SetSyncSpawnHook_0)) && r is Normally, // OBL:C09.control.set_sync_spawn_hook
@@ -305,7 +305,7 @@ fn wait_handler($STATE_PARAMS) -> (r: Loop)
         inv_live(&*old(command_state), old(env)),
         inv_restart(*old(stop_timer), *old(on_end_restart), old(env)),
     ensures
-        inv_live(&*final(command_state), final(env)), // OBL:C04.wait_handler.at_most_one_live_child
+        inv_live(&*final(command_state), final(env)), // OBL:C04+C05.wait_handler.at_most_one_live_child
         // every ticket parked in the task is resolved or still parked afterwards (none is dropped), whatever fails
         forall|f: int| parked(f, *old(stop_timer), old(on_end)@, *old(on_end_restart)) ==>
             final(env).raised@.contains(f) || parked(f, *final(stop_timer), final(on_end)@, *final(on_end_restart)), // OBL:C07.wait_handler.no_ticket_is_dropped
@@ -474,7 +474,7 @@ fn job_task(command: ArcCommand, mut receiver: PriorityReceiver, done: Flag, env
 //@ loop 0
 invariant
     wf_rx(&receiver), // OBL:C10.job_task.receiver_wellformed
-    inv_live(&command_state, env), // OBL:C04.job_task.at_most_one_live_child_at_every_iteration
+    inv_live(&command_state, env), // OBL:C04+C05.job_task.at_most_one_live_child_at_every_iteration
     inv_restart(stop_timer, on_end_restart, env), // OBL:C07.job_task.restart_ticket_covered_at_every_iteration
     senders_ok(env.urgent@, env.high@), // OBL:C06.job_task.urgent_and_high_queues_hold_only_their_classes
 //@ end
